@@ -148,7 +148,8 @@ def renamings(rng, program, n):
         topmap = _inj_map(rng, top, PRC_NAMES + LOCAL_NAMES, ()) if rng.random() < 0.7 else {x: x for x in top}
         ctr = [0]
         for d, body in decl_bodies(decls):
-            names = [x for x in form_names(body) if x not in top]
+            istop = top if d[0] == 'prc' else []
+            names = [x for x in form_names(body) if x not in istop]
             if d[0] == 'let':
                 for p in d[2]:
                     if p[0] not in names:
@@ -162,9 +163,9 @@ def renamings(rng, program, n):
                     m[x] = 'u%d_%s' % (ctr[0], x.replace("'", ''))
             else:
                 pool = list(set(all_locals)) + LOCAL_NAMES[:8] + list(topmap.values())[:2]
-                m = _inj_map(rng, names, sorted(pool), set(topmap.values()) if d[0] == 'prc' else
-                             {topmap[x] for x in top if x in form_names(body)})
-            m.update(topmap)
+                m = _inj_map(rng, names, sorted(pool), set(topmap.values()) if d[0] == 'prc' else ())
+            if d[0] == 'prc':
+                m.update(topmap)
             rename_form(body, m)
             if d[0] == 'let':
                 for p in d[2]:
